@@ -1140,7 +1140,61 @@ def check_C14(ctx):
                   'performed concurrently; the inventory of writable static objects is regenerated from the built libeav.a (objdump) for theorem C14_no_writable_static_storage',
                   extra_trusted=['gcc ThreadSanitizer', 'objdump section inventory (tools/gen.py)', 'partial: races inside libidn2/glibc and weak-memory effects are outside the model'])
 
-CHECKS = {'C14': check_C14, 'C20': check_C20, 'C10': check_C10, 'C05': check_C05, 'C17': check_C17, 'C11': check_C11, 'C13': check_C13, 'C15': check_C15, 'C16': check_C16, 'C19': check_C19, 'C01': check_C01, 'C07': check_C07, 'C08': check_C08, 'C09': check_C09, 'C12': check_C12, 'C03': check_C03, 'C02': check_C02, 'C04': check_C04}
+# ------------------------------------------------------------------ C18
+def check_C18(ctx):
+    step_proof(ctx)
+    addrs = sorted(set(gens.addr_structured() + gens.addr_class(3) + gens.addr_boundary()[::3] + [b'u@' + d for d in gens.reserved_domains()[::13] if b'@' not in d] +
+                       [b'u@' + d for d in gens.idn_domains(ctx.rnd, 300) if b'@' not in d]))
+    orc = vlib.idn_oracle(gens.domains_of(addrs) | gens.domains_of(gens.HIST_POOL))
+    el = gens.e_lines(addrs, orc)
+    ul = gens.u_lines(sorted(gens.domains_of(addrs)), orc)
+    hl = gens.hist_exhaustive(orc, 3 if ctx.thorough() else 2) + gens.hist_random(ctx.rnd, orc, 2000 if not ctx.thorough() else 20000)
+    # mode changes back and forth: the idnkit context must be created / destroyed exactly once each time
+    for seq in itertools.product(['r0', 'r3', 'r1', 'r9', 's', gens.enc_e(b'a@b.com', orc)], repeat=4):
+        hl.append('A i s ' + ' '.join(seq) + ' s f')
+        hl.append('A i ' + ' '.join(seq) + ' f i s f')
+    hl = [h for h in hl if legal_history(h)]
+    outs = {}
+    for be in ('idn2', 'idn', 'idnkit'):
+        lib = ctx.snap.lib(backend=be)
+        desc = lambda ln, a, b, be=be: 'back end %s: implementation %s, the single facade model %s' % (be, a, b)
+        corr(ctx, be + ':addresses', el, first_fields(3), lib=lib, describe=desc, genuine=False, nontrivial=nontriv_addr)
+        corr(ctx, be + ':is_utf8_domain', ul, first_fields(2), lib=lib, describe=desc, genuine=False, nontrivial=lambda ln, o: not o.startswith('-16'))
+        corr(ctx, be + ':histories', hl, lambda ln, o: o, lib=lib, describe=desc, genuine=(lambda ln, a, b: ' K' in a and a.split(' K')[1] != b.split(' K')[-1]) if be == 'idnkit' else False,
+             nontrivial=lambda ln, o: ' R' in o)
+        outs[be] = tuple(vlib.run_both(lib, ctx.snap, X)[0] for X in (el, ul, hl))
+    nb = 0
+    strip = lambda o: o.split(' K')[0]
+    for be in ('idn', 'idnkit'):
+        for X, a, b in ((el, outs['idn2'][0], outs[be][0]), (ul, outs['idn2'][1], outs[be][1]), (hl, outs['idn2'][2], outs[be][2])):
+            for ln, x, y in zip(X, a, b):
+                if strip(x) != strip(y) and nb < 4:
+                    nb += 1
+                    relation_violation(ctx, 'C18_backends_agree', {'case': ln, 'libidn2_build': x, be + '_build': y,
+                                       'explanation': 'same input, same IDN conversion (adapter onto libidn2): the %s build decides / reports differently from the libidn2 build' % be})
+    for ln, o in zip(hl, outs['idnkit'][2]):
+        k = o.split(' K')[-1].split(',') if ' K' in o else None
+        if k and (k[0] != k[1] or k[2] != '0' or k[3] != '0') and nb < 6:
+            nb += 1
+            relation_violation(ctx, 'C18_idnkit_released_exactly_once', {'history': ln, 'created,destroyed,destroy_of_dead,use_after_destroy': k,
+                               'explanation': 'idnkit context not released exactly once by the end of the history (or destroyed while dead / used after destroy)'})
+    return finish(ctx, rule='partial/idn and partial/idnkit are compiled with the repository Makefile (FORCE_IDN) against stub headers and harness/adapter.c, which maps their IDN entry points onto '
+                  'libidn2 and counts idnkit context creations/destructions; E, U and A cases run against the three builds and the single facade model; the builds are also compared with each other',
+                  extra_trusted=['harness/stubs/idna.h, harness/stubs/idn/api.h, harness/adapter.c (libidn and idnkit are not installed: their real behaviour is not exercised)', 'libidn2 2.3.3'])
+
+def legal_history(h):
+    """eav_is_email only after a successful eav_setup since the last eav_init; after eav_free only eav_init."""
+    ok = False; freed = False; rfc = 3
+    for o in h.split(' ')[1:]:
+        if o == 'i': ok = False; freed = False; rfc = 3; continue
+        if freed: return False
+        if o[0] == 'r': rfc = int(o[1:])
+        elif o == 's' and rfc in (0, 1, 2, 3): ok = True
+        elif o[0] == 'e' and not ok: return False
+        elif o == 'f': freed = True
+    return True
+
+CHECKS = {'C18': check_C18, 'C14': check_C14, 'C20': check_C20, 'C10': check_C10, 'C05': check_C05, 'C17': check_C17, 'C11': check_C11, 'C13': check_C13, 'C15': check_C15, 'C16': check_C16, 'C19': check_C19, 'C01': check_C01, 'C07': check_C07, 'C08': check_C08, 'C09': check_C09, 'C12': check_C12, 'C03': check_C03, 'C02': check_C02, 'C04': check_C04}
 
 def main():
     if len(sys.argv) >= 3 and sys.argv[1] == 'replay':
